@@ -116,6 +116,32 @@ pub fn customs(_args: &[String]) -> Result<Value> {
             }
         }
     }
+    // sections added / replaced through the public API: a typed user section and raw sections mixed; the emitted order is the order
+    // in which the module holds them (arena order), whatever their kind
+    #[derive(Debug)]
+    struct Typed(Vec<u8>);
+    impl walrus::CustomSection for Typed { fn name(&self) -> &str { "typed" } fn data(&self, _: &walrus::IdsToIndices) -> std::borrow::Cow<[u8]> { self.0.clone().into() } }
+    for variant in 0..3 {
+        checked += 1;
+        let wasm = module_with_customs(&[(0, "a", vec![1]), (5, "b", vec![2])]);
+        let r = std::panic::catch_unwind(move || -> Result<(Vec<(String, String)>, Vec<(String, String)>)> {
+            let mut config = walrus::ModuleConfig::new();
+            config.generate_producers_section(false);
+            let mut m = config.parse(&wasm)?;
+            let mut want: Vec<(String, String)> = vec![("a".into(), "01".into()), ("b".into(), "02".into())];
+            match variant {
+                0 => { m.customs.add(Typed(vec![9, 9])); m.customs.add(walrus::RawCustomSection { name: "c".into(), data: vec![3] }); want.push(("typed".into(), "0909".into())); want.push(("c".into(), "03".into())); }
+                1 => { let _ = m.customs.remove_raw("a"); m.customs.add(Typed(vec![7])); m.customs.add(walrus::RawCustomSection { name: "c".into(), data: vec![3] }); want = vec![("b".into(), "02".into()), ("typed".into(), "07".into()), ("c".into(), "03".into())]; }
+                _ => { m.customs.add(walrus::RawCustomSection { name: "c".into(), data: vec![3] }); m.customs.add(Typed(vec![])); m.customs.add(walrus::RawCustomSection { name: "c".into(), data: vec![3] }); want.push(("c".into(), "03".into())); want.push(("typed".into(), "".into())); want.push(("c".into(), "03".into())); }
+            }
+            Ok((customs_of(&m.emit_wasm())?, want))
+        });
+        match r {
+            Ok(Ok((got, want))) => if got != want { failures.push(json!({"scenario": format!("API variant {variant}: typed and raw sections mixed"), "expected_customs": want, "output_customs": got})); },
+            Ok(Err(e)) => failures.push(json!({"scenario": format!("API variant {variant}"), "error": format!("{e:#}")})),
+            Err(_) => failures.push(json!({"scenario": format!("API variant {variant}"), "panic": true})),
+        }
+    }
     failures.truncate(8);
     Ok(json!({"violated": !failures.is_empty(), "cases_checked": checked, "failures": failures}))
 }
